@@ -107,6 +107,11 @@ def lex_spans(dialect, sql):
     return spans
 
 
+def lex_number_starts(dialect, sql):
+    lexer, _ = get_lexer_parser(dialect)
+    return [t.index for t in lexer.tokenize(sql) if t.type in ('INTEGER', 'FLOAT')]
+
+
 mut_ops_by_class = collections.defaultdict(list)
 for d in ('sqlite', 'mysql', 'mindsdb'):
     base = BASE + (MDB_BASE if d == 'mindsdb' else [])
@@ -123,6 +128,11 @@ for d in ('sqlite', 'mysql', 'mindsdb'):
             cands.add(sql[:a] + 'foo ' + sql[a:])               # insert an identifier before token k
             cands.add(sql[:a] + 'by ' + sql[a:])                # insert a keyword before token k
             cands.add(sql[:a] + '7 ' + sql[a:])                 # insert a number before token k
+        try:
+            for a_ in lex_number_starts(d, sql):
+                cands.add(sql[:a_] + '-' + sql[a_:])            # a sign in front of a number
+        except Exception:
+            pass
         for m in sorted(cands):
             if not m.strip():
                 continue
@@ -184,6 +194,21 @@ for i, (st, lst) in enumerate(sorted(errstate.items(), key=lambda kv: (-len(kv[1
     errstate_fams['errstate_%02d' % len(errstate_fams)] = [{'k': 'parse', 'd': st[0], 'sql': m} for m in members[:10]]
     if len(errstate_fams) >= 60:
         break
+
+# ------------------------------------------------------------------ dialect-differential inputs
+# texts that one dialect accepts and another rejects (or parses to another class): the inputs most sensitive to one
+# dialect's grammar leaking into another's
+dd = []
+_texts = sorted({m for lst in mut_ops_by_class.values() for m in lst} | set(BASE) | {s_ for (d_, s_, o_) in H['parse'] if o_.startswith('ok')})
+rng.shuffle(_texts)
+for t_ in _texts[:1500]:
+    oc = {d_: outcome(d_, t_).split(':')[0:2] for d_ in ('mindsdb', 'mysql', 'sqlite')}
+    if len({tuple(v) for v in oc.values()}) > 1:
+        dd.append(t_)
+    if len(dd) >= 45:
+        break
+dd += ["select a from t limit -1", "select a from t limit 2 offset -2", "select a from t where b = -1 limit -1", "select -1", "select a from t limit -1, 2"]
+dialect_diff_ops = [{'k': 'parse', 'd': d_, 'sql': t_} for t_ in dd for d_ in ('mindsdb', 'mysql', 'sqlite')]
 
 # ------------------------------------------------------------------ hand-written malformed inputs
 MALFORMED = [
@@ -529,6 +554,51 @@ PH = ["select * from int.tab1 where id = ? and name <> 'a'", "select a, ? from i
 fam('placeholders', [x for q_ in PH for x in (
     {'k': 'parse', 'd': 'mindsdb', 'sql': q_}, {'k': 'parse', 'd': 'mysql', 'sql': q_}, P(q_, cA),
     {'k': 'flow', 'd': 'mindsdb', 'sql': q_, 'cat': cA, 'rd': 'mysql'}, {'k': 'render', 'd': 'mindsdb', 'sql': q_, 'rd': 'postgresql', 'fb': True})])
+fam('dialect_diff', dialect_diff_ops)
+
+# deep / long inputs: long AND/OR chains, deep parentheses, long IN lists, many UNION branches.  Kept only if the outcome
+# (a plan, or RecursionError) is the same under recursion limits 0.7x and 1.4x the default, i.e. far from the edge, so that
+# the few frames by which a client thread's stack differs from the reference child's cannot flip it.
+import sys as _sys
+
+
+def _chain(n, op_):
+    return (' %s ' % op_).join('t1.c%d = %d' % (i, i) for i in range(n))
+
+
+DEEP = []
+for n_ in (40, 90, 300, 600):
+    DEEP.append("select * from int.tab1 t1 join int2.tab2 t2 on t1.a = t2.a where " + _chain(n_, 'or'))
+    DEEP.append("select t1.a, m.p from int.tab1 t1 join mindsdb.pred m where " + _chain(n_, 'and'))
+    DEEP.append("select * from int.tab1 t1 where " + _chain(n_, 'and'))
+    DEEP.append("select " + '(' * n_ + '1' + ')' * n_ + " from int.tab1")
+    DEEP.append("select * from int.tab1 where a in (" + ', '.join(str(i) for i in range(n_ * 3)) + ")")
+DEEP.append(' union '.join("select a from int.tab%d" % i for i in range(40)))
+deep_ops = []
+_lim = _sys.getrecursionlimit()
+for sql_ in DEEP:
+    for op in (P(sql_, cA), {'k': 'parse', 'd': 'mindsdb', 'sql': sql_}, {'k': 'render', 'd': 'mindsdb', 'sql': sql_, 'rd': 'mysql', 'fb': True}):
+        outs = []
+        for f_ in (0.7, 1.4):
+            _sys.setrecursionlimit(int(_lim * f_))
+            try:
+                outs.append(O.run_op(op, O.Env(catalogs, 'op', 'op')))
+            finally:
+                _sys.setrecursionlimit(_lim)
+        if outs[0] == outs[1]:
+            deep_ops.append(op)
+fam('deep_inputs', deep_ops)
+
+# DDL on one reused renderer: the same table name with different column lists, created / dropped / created again
+DDL = ["create table files.events (id int, payload text, created_at date)", "drop table files.events", "create table files.events (user_id int, score float)",
+       "create table files.events (id int)", "create table events (id int, x text)", "create table events (y float)", "drop table if exists events, files.events",
+       "create table files.other (id int, payload text)", "create or replace table files.events (z int)"]
+ddl_ops = [{'k': 'render', 'd': 'mindsdb', 'sql': q_, 'rd': rd, 'fb': fb} for rd in ('mysql', 'postgresql', 'sqlite', 'mssql', 'oracle') for q_ in DDL
+           for fb in (True, False) if outcome('mindsdb', q_).startswith('ok')]
+render_ops_late = ddl_ops
+for rd in ('mysql', 'postgresql', 'sqlite', 'mssql', 'oracle'):
+    fam('render_ddl_' + rd, [o for o in ddl_ops if o['rd'] == rd])
+
 # same text family: identical statements many times (text-keyed caches)
 fam('same_text', [
     {'k': 'parse', 'd': 'mindsdb', 'sql': "select a, b from t where a = 1"},
@@ -623,7 +693,7 @@ probes = [
     {'k': 'render', 'd': 'mindsdb', 'sql': "select interval '1 day'", 'rd': 'oracle', 'fb': True},
 ]
 
-pool = parse_ops + mut_ops + mal_ops + plan_ops + render_ops + flow_ops + gen_plan + gen_render + gen_parse + leaf_pool
+pool = parse_ops + mut_ops + mal_ops + plan_ops + render_ops + flow_ops + gen_plan + gen_render + gen_parse + leaf_pool + render_ops_late + dialect_diff_ops
 # dedupe
 seen = set()
 pool2 = []
